@@ -180,6 +180,11 @@ def build(sess, name="x"):
                 b.add("dgram %s %d %s %d %s" % (C, tk, remote[0], remote[1], hx(data)), ("op", "c", tk), sd)
             else:
                 b.add("dgram %s %d %s %d %s %d %d %d" % (S, tk, remote[0], remote[1], hx(data), rs[0], rs[1], rs[2]), ("op", "s", tk), sd)
+        elif k == "sclose":
+            # the stream is closed (by either end, or broken): from now on every write of either end raises a StreamError
+            for sd, key in ((sc, "c"), (ss, "s")):
+                if not sd.cut:
+                    b.add("link %s %s %d 0" % (sd.name, caddr[0], caddr[1]), ("setup2", None))
         elif k == "sgone":
             _, t, local, remote = e
             tk = ticks(t)
@@ -270,14 +275,19 @@ def compare(drv, sess, name="x", want_lines=False):
     for e in sess.netlog:
         if e[0] == "app" and e[2] == "c" and e[3] == "disconnect" and cutoff["c"] is None: cutoff["c"] = ticks(e[1])
         if e[0] == "app" and e[2] == "s" and e[3] in ("done", "raised") and cutoff["s"] is None: cutoff["s"] = ticks(e[1]); slack["s"] = 1 if e[3] == "raised" else 0
-    if info["client_gone"] is not None:
-        # the client's task group collapsed with the transport's exception: its readers were cancelled before they could observe anything more
-        cutoff["c"] = info["client_gone"] if cutoff["c"] is None else min(cutoff["c"], info["client_gone"])
+    gone = info["client_gone"]
     for key in set(re_["deliver"]) | set(me["deliver"]):
         if key[0] in info["prefix"]:
             continue
         md = [d for (tk, d) in me["deliver"].get(key, []) if cutoff[key[0]] is None or tk < cutoff[key[0]] + slack[key[0]]]
-        if re_["deliver"].get(key, []) != md:
+        rd = re_["deliver"].get(key, [])
+        if key[0] == "c" and gone is not None:
+            # the client's task group collapsed with the transport's exception: its readers were cancelled at that instant; what the
+            # model delivers AT that very instant (a stream has no latency) may or may not have been picked up by them
+            sure = [d for (tk, d) in me["deliver"].get(key, []) if (cutoff["c"] is None or tk < cutoff["c"]) and tk < gone]
+            if len(sure) <= len(rd) <= len(md) and md[:len(rd)] == rd:
+                continue
+        if rd != md:
             diffs.append({"kind": "deliver", "endpoint": key[0], "substream": key[1],
                           "real": re_["deliver"].get(key, [])[:4], "model": md[:4],
                           "real_n": len(re_["deliver"].get(key, [])), "model_n": len(md)})
@@ -285,6 +295,8 @@ def compare(drv, sess, name="x", want_lines=False):
         if side in info["prefix"]:
             continue
         if re_["eof"].get(side) != me["eof"].get(side):
+            if side == "c" and gone is not None and re_["eof"].get(side) is None and me["eof"].get(side) is not None and me["eof"][side] >= gone:
+                continue        # cancelled readers observe no EOF
             if re_["eof"].get(side) is None and me["eof"].get(side) is not None and cutoff[side] is not None and me["eof"][side] >= cutoff[side]:
                 continue
             if re_["eof"].get(side) is None and not re_["hs"]:
